@@ -62,7 +62,7 @@ def Vector_is_na (truth : Term → Bool) : Out :=
         if (truth (Term.app ".is_string" [(Term.sym "self")]) || truth (Term.app "._is_string_fixed" [(Term.sym "self")])) then
           Out.ret [] (Term.app "Eq" [(Term.sym "self"), (Term.sym "dtypes.string.na_object")])
         else
-          Out.ret [] (Term.app ".fast" [(Term.sym "self"), (Term.sym "[x is None for x in self]"), (Term.sym "bool")])
+          Out.ret [] (Term.app ".fast" [(Term.sym "self"), (Term.app "ListComp" [(Term.app "Is" [(Term.sym "x"), (Term.sym "None")]), (Term.app "in" [(Term.sym "x"), (Term.sym "self"), (Term.app "if" [])])]), (Term.sym "bool")])
 
 /-- dataiter/vector.py: Vector.drop_na (sha256 of the function source: 94a4d2b6c906399e) -/
 def Vector_drop_na (truth : Term → Bool) : Out :=
